@@ -133,10 +133,20 @@ def run(ck):
         seen.add(key)
         uniq.append((origin, s))
     texts = []
-    uniq = [("witness", None)] * len(fixed_texts) + uniq
+    # raw texts: every prefix of the seed programs (the end of input inside every construct, strings / code blocks / comments cut
+    # short: lexical Error tokens in every position) - compared with the model; those without lexical errors are classified too
+    from . import c02 as _c02
+    cuts = []
+    for sd in _c02.SEEDS:
+        step = 1 if not quick else 2
+        cuts += [sd[:i] for i in range(1, len(sd) + 1, step)]
+    uniq = [("witness", None)] * len(fixed_texts) + [("text", t) for t in sorted(set(cuts))] + uniq
     for origin, s in uniq:
         if origin == "witness":
             texts.append(fixed_texts[len(texts)])
+            continue
+        if origin == "text":
+            texts.append(s)
             continue
         toks = [(k, kind_text(rng, k, bang_text)) for k in s]
         texts.append(gen.render(rng, toks, rng.choice(["spaced", "spaced", "tight", "messy"])))
@@ -151,7 +161,7 @@ def run(ck):
         if "Error" in ks or "PreProcessor" in ks or any(k in ("Ifdef", "Ifndef", "Else", "Endif", "Define") for k in ks):
             counts["lexically_different"] += 1
             continue
-        if origin != "witness" and ks != s:
+        if origin not in ("witness", "text") and ks != s:
             counts["lexically_different"] += 1     # e.g. "1" "-" "2" rendered tight: judged on what the lexer delivers
         key = tuple(ks)
         if key in nontriv:
